@@ -1651,6 +1651,8 @@ class Interval(Node):
     def get_sql(self, ctx: SqlContext) -> str:
         if self.largest == "MICROSECOND":
             expr = getattr(self, "microseconds")
+            if self.is_negative:
+                expr = "-{}".format(expr)
             unit = "MICROSECOND"
 
         elif hasattr(self, "quarters"):
